@@ -355,6 +355,32 @@ func c15Attrs(c *Case) {
 	if err := conn.Exec(fmt.Sprintf("insert into %s values (900003, 'x', 'y')", t)); err != nil {
 		fail("future-deadline", "INSERT fails with a deadline one hour ahead: "+err.Error())
 	}
+	// dropping one table must not disturb the connection's other statements while a deadline is set
+	t3 := tname(c, "c")
+	s3 := spec
+	s3.Name, s3.Client, s3.Prefix = t3, "a3", "r"
+	if err := conn.Create(s3); err != nil {
+		fail("create-under-future-deadline", err.Error())
+	} else {
+		conn.Exec("drop table " + t3)
+		conn2ok := true
+		if r.Bool() {
+			// with an explicit write_time BEGIN does not rebuild the context
+			conn.SetWriteTime(9000)
+		} else if err := conn.Exec("select s3db_refresh('" + t + "')"); err != nil {
+			fail("drop-table-breaks-connection", "after DROP of another table, with a deadline one hour ahead, s3db_refresh fails: "+err.Error())
+			conn2ok = false
+		}
+		if !conn2ok {
+			return
+		}
+		if err := conn.Exec(fmt.Sprintf("insert into %s values (900004, 'x', 'y')", t)); err != nil {
+			fail("drop-table-breaks-connection", "after DROP of another table, with a deadline one hour ahead, an INSERT fails: "+err.Error())
+		}
+		if err := conn.Exec("select s3db_refresh('" + t + "')"); err != nil {
+			fail("drop-table-breaks-connection", "after DROP of another table, with a deadline one hour ahead, s3db_refresh fails: "+err.Error())
+		}
+	}
 	c.Count("deadline_scenarios", 1)
 	c.NonTrivial(strings.Join(trace, ";"))
 	if c.Index < 8 {
